@@ -338,6 +338,7 @@ func genGoModBytes(r *rand.Rand, i, n int) *Case {
 	// directive groups in random order
 	type group func()
 	var groups []group
+	var chainGroup func()
 	groups = append(groups, func() { addLine(&gmDir{Kind: "module", P: pick(r, "example.com/m", "github.com/o/r/v2", "m")}) })
 	goV := pick(r, "1.21", "1.22.3", "1.17", "1.16", "1.20", "")
 	if goV != "" {
@@ -363,7 +364,25 @@ func genGoModBytes(r *rand.Rand, i, n int) *Case {
 			}
 		})
 	}
-	if i%3 == 2 && nrec > 0 {
+	if i%6 == 3 && nrec >= 2 {
+		crs, tag := chainReplaces(r, reqs)
+		var rps []*gmDir
+		for k := range crs {
+			rps = append(rps, &gmDir{Kind: "replace", R: &crs[k]})
+		}
+		groupsChain := func() {
+			if r.Intn(2) == 0 {
+				for _, d := range rps {
+					addLine(d)
+				}
+			} else {
+				addBlock("replace", rps)
+			}
+		}
+		defer func() {}()
+		chainGroup = groupsChain
+		tags = append(tags, "replace-chain", tag)
+	} else if i%3 == 2 && nrec > 0 {
 		var rps []*gmDir
 		usedOld := map[string]bool{}
 		for k := 1 + r.Intn(3); k > 0; k-- {
@@ -390,6 +409,9 @@ func genGoModBytes(r *rand.Rand, i, n int) *Case {
 			}
 		})
 		tags = append(tags, "replace")
+	}
+	if chainGroup != nil {
+		groups = append(groups, chainGroup)
 	}
 	if r.Intn(3) == 0 {
 		groups = append(groups, func() { addLine(&gmDir{Kind: "ignored", Verb: "exclude", Args: []string{"github.com/decoy/excluded", "v1.9.9"}}) })
